@@ -89,6 +89,10 @@ struct Beh {
 	/// seeds the independent opener could not read (a changed file format): named by the root
 	/// key the code's own opener derived right after the create call that drew them
 	learnt_roots: RefCell<BTreeMap<String, String>>,
+	/// probe results of a file content under a password (a backup that did not change is not
+	/// probed again); dropped whenever a seed gets its name
+	cache: RefCell<std::collections::HashMap<(Vec<u8>, String), (String, String, String)>>,
+	cache_names: RefCell<usize>,
 }
 
 impl Beh {
@@ -262,14 +266,28 @@ fn probe_dir(w: &Worker, b: &mut Beh, learn: Option<(&str, &str)>) -> Value {
 		let mut indep = Map::new();
 		let mut code = Map::new();
 		let mut mn = Map::new();
+		let names_now = b.seeds.len() + b.learnt_roots.borrow().len();
+		if *b.cache_names.borrow() != names_now {
+			b.cache.borrow_mut().clear();
+			*b.cache_names.borrow_mut() = names_now;
+		}
 		for pn in pwnames.iter() {
 			let pw = b.pw(pn);
-			let r = match opener::open(&p, &pw) {
-				None => "err".to_string(),
-				Some(bytes) => b.name_of_seed(&bytes).unwrap_or_else(|| "other".to_string()),
+			let key = (c.clone(), pn.clone());
+			let hit = b.cache.borrow().get(&key).cloned();
+			let (r, ow, m) = match hit {
+				Some(x) => x,
+				None => {
+					let r = match opener::open(&p, &pw) {
+						None => "err".to_string(),
+						Some(bytes) => b.name_of_seed(&bytes).unwrap_or_else(|| "other".to_string()),
+					};
+					let (ow, m) = code_open(w, b, c, &pw);
+					b.cache.borrow_mut().insert(key, (r.clone(), ow.clone(), m.clone()));
+					(r, ow, m)
+				}
 			};
 			indep.insert(pn.clone(), json!(r));
-			let (ow, m) = code_open(w, b, c, &pw);
 			code.insert(pn.clone(), json!(ow));
 			mn.insert(pn.clone(), json!(m));
 		}
@@ -300,6 +318,8 @@ fn run_behaviour(w: &Worker, root: &str, beh: &[Value], bid: usize, seed: u64, n
 		salt,
 		roots: RefCell::new(BTreeMap::new()),
 		learnt_roots: RefCell::new(BTreeMap::new()),
+		cache: RefCell::new(std::collections::HashMap::new()),
+		cache_names: RefCell::new(0),
 	};
 	let mut out = vec![];
 	let pwk: Map<String, Value> = b.pws.iter().map(|(k, v)| (k.clone(), json!(v.0))).collect();
@@ -440,6 +460,8 @@ fn run_trunc(w: &Worker, root: &str, case: &Value, bid: usize) -> Vec<String> {
 		salt: 0,
 		roots: RefCell::new(BTreeMap::new()),
 		learnt_roots: RefCell::new(BTreeMap::new()),
+		cache: RefCell::new(std::collections::HashMap::new()),
+		cache_names: RefCell::new(0),
 	};
 	let p = opener::parse(&content);
 	let seed = opener::open(&p, &pw);
